@@ -508,6 +508,16 @@ func c17RunTrace(e *Env, lp *vk.ListenerPool, tr c17Trace) (res c17TraceResult) 
 	streams, cs := tr.Streams, tr.CS
 	opts := transfer.Options{ChunkSize: cs, ParallelFiles: streams, Resume: true, HashAlg: "crc32c"}
 	opts.ParamSource = func() transfer.RuntimeParams { return transfer.RuntimeParams{ChunkSize: cs, ParallelFiles: streams} }
+	// The application's stats callback is user code that may take its time (the
+	// real one updates the UI under locks): a seeded delay there widens whatever
+	// window lies around the place the sender calls it from, without changing
+	// what a correct sender does.
+	statsSeed := vk.Mix(uint64(tr.CS)*131 + uint64(len(tr.Files))*7 + uint64(tr.Streams))
+	opts.ResumeStatsFn = func(relpath string, skipped, total uint32, verified uint32, totalBytes int64, chunkSize uint32) {
+		if v := vk.Mix(statsSeed ^ vk.HashStr(relpath)); v%4 != 0 {
+			time.Sleep(time.Duration(1+v%4) * time.Millisecond)
+		}
+	}
 	sendDone := make(chan error, 1)
 	go func() { sendDone <- transfer.SendManifestMultiStream(ctx, pair.Dial, dir, m, opts) }()
 
